@@ -621,11 +621,6 @@ Proof.
   destruct (se <=? nlen (s1 ++ X)); intros H; inversion H. apply nfirstn_app_le. exact Hse.
 Qed.
 
-(* what the record built at the end says about its scheme slice and its path slice *)
-Definition result_ok (se : N) (sch : list N) (bound : nat) (file : bool) (u : url) : Prop :=
-  (forall s, scheme u = Some s -> s = sch)
-  /\ (file = false -> forall p', path u = Some p' -> (count58 p' <= bound)%nat).
-
 Lemma wqf_shape ovr ctx st se ue hs he hi port ps ser rem u :
   with_query_and_fragment ovr ctx st se ue hs he hi port ps ser rem = POk u -> ps <= nlen ser -> se <= nlen ser ->
   (forall s, scheme u = Some s -> s = nfirstn se ser)
@@ -668,4 +663,182 @@ Proof.
   - intros p' Hp. apply path_of_parts in Hp; [|exact H1|exact Hqf]. congruence.
 Qed.
 
+(* ---------- the states after the scheme ---------- *)
+(* path states done: the record built by with_query_and_fragment *)
+Lemma tail_shape ovr ctx st se ue hs he hi port ps pre k ser rem u :
+  with_query_and_fragment ovr ctx st se ue hs he hi port ps ser rem = POk u ->
+  nlen pre = ps -> CInv st ps pre k ser -> se <= ps -> st_is_file st = false ->
+  (forall s, scheme u = Some s -> s = nfirstn se pre)
+  /\ (forall p', path u = Some p' -> (count58 p' <= k)%nat).
+Proof.
+  intros H Hpre I Hse Hf. pose proof (cinv_len st ps pre Hpre k ser I) as L.
+  destruct (wqf_shape _ _ _ _ _ _ _ _ _ _ _ _ _ H L ltac:(lia)) as [H1 H2]. destruct I as [I1 I2]. split.
+  - intros s Hs. rewrite (H1 s Hs). rewrite <- I1. symmetry. apply nfirstn_nfirstn. exact Hse.
+  - intros p' Hp. rewrite (H2 p' Hp). apply I2. exact Hf.
+Qed.
+
+Lemma cinv_prefix st ps pre k ser se : nlen pre = ps -> CInv st ps pre k ser -> se <= ps -> nfirstn se ser = nfirstn se pre.
+Proof. intros Hpre [I1 _] Hse. rewrite <- I1. symmetry. apply nfirstn_nfirstn. exact Hse. Qed.
+
+Lemma after_double_slash_shape ovr ctx st se ser l u :
+  after_double_slash dbg hp ho hd ovr ctx st se ser l = POk u -> st_is_file st = false -> se <= nlen ser ->
+  (forall s, scheme u = Some s -> s = nfirstn se ser)
+  /\ (forall p', path u = Some p' -> (count58 p' <= count58 l)%nat).
+Proof.
+  unfold after_double_slash. cbv zeta. intros H Hf Hse.
+  pbi H a Ha. destruct a as [[ser1 ue] remaining]. apply parse_userinfo_shape in Ha. destruct Ha as [[X1 ->] Hr1].
+  pbi H hs Hhs. pbi H b Hb. destruct b as [[[[ser2 he] hi] port] remaining2].
+  apply parse_host_and_port_shape in Hb. destruct Hb as [[X2 ->] Hr2].
+  destruct (hi_eqb hi HI_None && negb (nlen (ser ++ [47; 47]) =? nlen ((ser ++ [47; 47]) ++ X1))); [discriminate|].
+  pbi H ps Hps. apply to_u32_val in Hps. subst ps.
+  pbi H c Hc. destruct c as [[ser3 hh3] remaining3].
+  apply parse_path_start_cinv in Hc. destruct Hc as (k' & I' & Hk').
+  set (ser2 := ((ser ++ [47; 47]) ++ X1) ++ X2) in *.
+  assert (Hle : se <= nlen ser2) by (unfold ser2; rewrite !nlen_app; lia).
+  destruct (tail_shape _ _ _ _ _ _ _ _ _ _ ser2 k' _ _ _ H eq_refl I' Hle Hf) as [H1 H2]. split.
+  - intros s Hs. rewrite (H1 s Hs). unfold ser2. rewrite <- !app_assoc. apply nfirstn_app_le. exact Hse.
+  - intros p' Hp. specialize (H2 p' Hp). lia.
+Qed.
+
+Lemma parse_non_special_shape ovr ctx st se ser l u :
+  parse_non_special dbg hp ho hd ovr ctx st se ser l = POk u -> st_is_file st = false -> se <= nlen ser ->
+  (forall s, scheme u = Some s -> s = nfirstn se ser)
+  /\ (forall p', path u = Some p' -> (count58 p' <= count58 l)%nat).
+Proof.
+  unfold parse_non_special. intros H Hf Hse.
+  destruct (inp_split_prefix_str s_ss l) as [rem|] eqn:E.
+  - apply inp_split_prefix_str_count58 in E.
+    destruct (after_double_slash_shape _ _ _ _ _ _ _ H Hf Hse) as [H1 H2]. split; [exact H1|].
+    intros p' Hp. specialize (H2 p' Hp). lia.
+  - pbi H ps Hps. apply to_u32_val in Hps. subst ps. pbi H a Ha. destruct a as [ser1 remaining].
+    assert (exists k', CInv st (nlen ser) ser k' ser1 /\ (k' + count58 remaining <= count58 l)%nat) as (k' & I' & Hk').
+    { destruct (inp_split_prefix_char 47 l) as [rem|] eqn:E2.
+      - apply inp_split_prefix_char_count58 in E2. pbi Ha b Hb. destruct b as [[s0 hh0] r0]. inversion Ha; subst.
+        assert (CInv st (nlen ser) ser 0 (ser ++ [47])) as I1 by (apply cinv_app0; [reflexivity|apply cinv_init|reflexivity]).
+        destruct (parse_path_cinv _ _ _ _ _ _ _ _ _ _ _ eq_refl Hb I1) as (k' & I' & Hk').
+        exists k'. split; [exact I'|lia].
+      - inversion Ha as [Hcbb]. apply parse_cbb_shape in Hcbb. destruct Hcbb as (X & -> & HX).
+        exists (0 + count58 X)%nat. split; [apply cinv_app; [reflexivity|apply cinv_init]|lia]. }
+    destruct (tail_shape _ _ _ _ _ _ _ _ _ _ ser k' _ _ _ H eq_refl I' Hse Hf) as [H1 H2]. split; [exact H1|].
+    intros p' Hp. specialize (H2 p' Hp). lia.
+Qed.
+
+(* ---------- file URLs (no base): only the scheme slice is needed ---------- *)
+Lemma parse_file_host_app ser l ser1 flag hi rem :
+  parse_file_host hp hd ser l = POk (ser1, flag, hi, rem) -> exists X, ser1 = ser ++ X.
+Proof.
+  unfold parse_file_host. destruct (file_host l) as [h rem0]. destruct h as [|c t].
+  - intros H. inversion H; subst. exists []. now rewrite app_nil_r.
+  - intros H. pbi H hst Hh. destruct hst as [d|a|pc].
+    + destruct (list_eqb d s_localhost); inversion H; subst; [exists []; now rewrite app_nil_r|eexists; reflexivity].
+    + inversion H; subst. eexists; reflexivity.
+    + inversion H; subst. eexists; reflexivity.
+Qed.
+
+Lemma file_scheme_of s W hs he hi qs fs sch :
+  nfirstn 7 s = s_file_css -> scheme (file_url (s ++ W) hs he hi qs fs) = Some sch -> sch = s_file.
+Proof.
+  intros H7. unfold scheme, u_slice_to, slice_to_o, file_url. cbn [ser scheme_end].
+  assert (7 <= nlen s) as L.
+  { assert (nlen (nfirstn 7 s) = 7) as E by (rewrite H7; reflexivity). pose proof (nlen_nfirstn_le 7 s).
+    unfold nlen, nfirstn in *. rewrite firstn_length in E. lia. }
+  destruct (4 <=? nlen (s ++ W)); intros H; inversion H.
+  rewrite nfirstn_app_le by lia. rewrite <- (nfirstn_nfirstn 4 7 s) by lia. rewrite H7. reflexivity.
+Qed.
+
+Lemma cinv_file_css k s2 : CInv STFile 7 s_file_css k s2 -> nfirstn 7 s2 = s_file_css.
+Proof. intros [H _]. exact H. Qed.
+
+Lemma parse_file_scheme ovr ctx st l u :
+  parse_file dbg hp hd ovr ctx st None l = POk u -> forall s, scheme u = Some s -> s = s_file.
+Proof.
+  unfold parse_file. destruct (inp_split_first l) as [fc af]. cbv zeta.
+  assert (CInv STFile 7 s_file_css 0 s_file_css) as I0 by (exact (cinv_init STFile s_file_css)).
+  assert (CInv STFile 7 s_file_css 0 (s_file_css ++ [47])) as I1 by (apply cinv_app0; [reflexivity|exact I0|reflexivity]).
+  destruct (match fc with Some c => is_slash_or_bslash c | None => false end).
+  - destruct (inp_split_first af) as [nc an].
+    destruct (match nc with Some c => is_slash_or_bslash c | None => false end).
+    + intros H. pbi H a Ha. destruct a as [[[ser1 flag] hi] remaining]. apply parse_file_host_app in Ha. destruct Ha as [X ->].
+      pbi H he Hhe. apply to_u32_val in Hhe. subst he. pbi H b Hb. destruct b as [[ser2 hh] remaining2].
+      assert (nfirstn (nlen (s_file_css ++ X)) ser2 = s_file_css ++ X) as Hpre.
+      { destruct flag.
+        - apply parse_path_start_cinv in Hb. destruct Hb as (k' & [I' _] & _). exact I'.
+        - assert (CInv STFile (nlen (s_file_css ++ X)) (s_file_css ++ X) 0 ((s_file_css ++ X) ++ [47])) as I2
+            by (apply cinv_app0; [reflexivity|apply cinv_init|reflexivity]).
+          destruct (parse_path_cinv _ _ _ _ _ _ _ _ _ _ _ eq_refl Hb I2) as (k' & [I' _] & _). exact I'. }
+      assert (nfirstn 7 ser2 = s_file_css) as H7.
+      { rewrite <- (nfirstn_nfirstn 7 (nlen (s_file_css ++ X)) ser2) by (rewrite nlen_app; change (nlen s_file_css) with 7; lia).
+        rewrite Hpre. change 7 with (nlen s_file_css). apply nfirstn_app_exact. }
+      destruct (negb hh).
+      * pbi H c Hc. destruct c as [[ser4 qs] fs]. apply pqf_shape in Hc. destruct Hc as (W & -> & _).
+        inversion H; subst. intros s Hs. eapply file_scheme_of; [|exact Hs].
+        rewrite H7. rewrite nfirstn_app_le by (change (nlen s_file_css) with 7; lia). reflexivity.
+      * pbi H c Hc. destruct c as [[ser4 qs] fs]. apply pqf_shape in Hc. destruct Hc as (W & -> & _).
+        inversion H; subst. intros s Hs. eapply file_scheme_of; [exact H7|exact Hs].
+    + intros H.
+      assert (exists a, parse_path dbg ctx STFile false 7 s_file_css l = POk a
+                /\ (let '(ser2, _, remaining) := a in
+                    ' (ser3, qs, fs) <~ parse_query_and_fragment ovr ctx st 4 ser2 remaining ;;
+                    POk (file_url ser3 7 7 HI_None qs fs)) = POk u) as (a & Ha & H').
+      { destruct (negb (starts_with_wdl_segment af)); cbv beta iota zeta in H; pbi H a Ha; exists a; split; assumption. }
+      clear H. destruct a as [[ser2 hh] remaining].
+      destruct (parse_path_cinv ctx STFile false 7 s_file_css _ _ _ _ _ _ eq_refl Ha I0) as (k' & I' & _).
+      pbi H' c Hc. destruct c as [[ser3 qs] fs]. apply pqf_shape in Hc. destruct Hc as (W & -> & _).
+      inversion H'; subst. intros s Hs. eapply file_scheme_of; [exact (cinv_file_css _ _ I')|exact Hs].
+  - intros H. pbi H a Ha. destruct a as [[ser2 hh] remaining].
+    destruct (parse_path_cinv ctx STFile false 7 s_file_css _ _ _ _ _ _ eq_refl Ha I1) as (k' & I' & _).
+    pbi H c Hc. destruct c as [[ser3 qs] fs]. apply pqf_shape in Hc. destruct Hc as (W & -> & _).
+    inversion H; subst. intros s Hs. eapply file_scheme_of; [exact (cinv_file_css _ _ I')|exact Hs].
+Qed.
+
+(* ---------- Url::parse without a base ---------- *)
+Lemma scheme_type_file s : scheme_type_of s = STFile -> s = s_file.
+Proof.
+  unfold scheme_type_of.
+  destruct (list_eqb s s_http || list_eqb s s_https || list_eqb s s_ws || list_eqb s s_wss || list_eqb s s_ftp); [discriminate|].
+  destruct (list_eqb s s_file) eqn:E; [|discriminate]. intros _. now apply list_eqb_spec.
+Qed.
+
+Lemma parse_with_scheme_shape ovr sch l u :
+  parse_with_scheme dbg hp ho hd ovr None sch l = POk u ->
+  (forall s, scheme u = Some s -> s = sch)
+  /\ (sch <> s_file -> forall p', path u = Some p' -> (count58 p' <= count58 l)%nat).
+Proof.
+  unfold parse_with_scheme. intros H. pbi H se Hse. apply to_u32_val in Hse. subst se. cbv zeta in H.
+  assert (Hpre : nfirstn (nlen sch) (sch ++ [58]) = sch) by apply nfirstn_app_exact.
+  assert (Hle : nlen sch <= nlen (sch ++ [58])) by (rewrite nlen_app; lia).
+  destruct (scheme_type_of sch) eqn:Est.
+  - apply scheme_type_file in Est. subst sch. split; [|intros Hne; contradiction].
+    eapply parse_file_scheme. exact H.
+  - destruct (inp_count_matching is_slash_or_bslash l) as [sl rem] eqn:E. apply inp_count_matching_count58 in E.
+    destruct (after_double_slash_shape _ _ _ _ _ _ _ H eq_refl Hle) as [H1 H2]. rewrite Hpre in H1. split; [exact H1|].
+    intros _ p' Hp. specialize (H2 p' Hp). lia.
+  - destruct (parse_non_special_shape _ _ _ _ _ _ _ H eq_refl Hle) as [H1 H2]. rewrite Hpre in H1. split; [exact H1|].
+    intros _ p' Hp. exact (H2 p' Hp).
+Qed.
+
+(* Url::parse(text): the scheme of the result is the scheme that was read, and - file URLs aside - its path has
+   fewer ':' than the text *)
+Theorem url_parse_colons p v :
+  url_parse dbg hp ho hd p = POk v ->
+  forall s, scheme v = Some s -> s <> s_file -> forall p', path v = Some p' -> (count58 p' < count58 p)%nat.
+Proof.
+  unfold url_parse, parse_url, str_chars. cbv zeta. intros H s Hs Hnf p' Hp.
+  pose proof (lossy_count58 p) as H0.
+  pose proof (count58_trim is_c0_or_space (utf8_lossy p)) as H1. fold (input_new_trim_c0 (utf8_lossy p)) in H1.
+  destruct (parse_scheme CUrlParser (input_new_trim_c0 (utf8_lossy p))) as [[sch remaining]|] eqn:E; [|discriminate].
+  apply parse_scheme_count58 in E.
+  destruct (parse_with_scheme_shape _ _ _ _ H) as [H2 H3].
+  rewrite (H2 s Hs) in Hnf. specialize (H3 Hnf p' Hp). lia.
+Qed.
+
 End HostStates.
+
+(* ---------- the premise of C16_fuel_partial, and the fuel theorem ---------- *)
+Lemma blob_path_shrinks_holds dbg hp ho hd : blob_path_shrinks dbg hp ho hd.
+Proof.
+  intros p v p' Hv Hs Hp. eapply url_parse_colons; [exact Hv|exact Hs|discriminate|exact Hp].
+Qed.
+
+Theorem fuel_always_enough : forall dbg hp ho hd c u, url_origin dbg hp ho hd c u <> OFuel.
+Proof. intros dbg hp ho hd. apply fuel_never_out. apply blob_path_shrinks_holds. Qed.
